@@ -111,6 +111,38 @@ def run_validate(facts, rep):
     if not bad2:
         rep.ok(R, v + "/L2", "each of the %d error stores is followed directly by `return`" % n_stores, facts.loc(v))
     rep.floor(R, "error stores in validate", n_stores, 14)
+    # (L6) the range tests compare with the documented bounds
+    RANGE = {"InvalidCoeffModulusBitCount": ({60, 2}, "2-to-60-bit coefficient moduli"),
+             "InvalidPlainModulusBitCount": ({60, 2}, "2-to-60-bit plain modulus"),
+             "InvalidCoeffModulusSize": ({64, 1}, "1 to 64 coefficient moduli"),
+             "InvalidPolyModulusDegree": ({131072, 2}, "degree between 2 and 2^17")}
+    tree = Tree(body)
+    defs = Defs(body)
+    for x in walk(body):
+        ev = is_err_store(x)
+        if ev not in RANGE:
+            continue
+        g = tree.enclosing(x, ("If",))
+        want, text = RANGE[ev]
+        vals = set()
+        names = []
+        if g is not None:
+            for y in defs.closure(g["c"]):
+                if y.get("k") == "Path" and y.get("res") not in ("local", None) and y.get("def"):
+                    c = facts.consts.get(y["def"])
+                    if c and c.get("value") is not None:
+                        vals.add(int(c["value"]))
+                        names.append(y["def"].rsplit("::", 1)[1])
+                if y.get("k") == "Lit" and str(y.get("v", "")).split("_")[0].isdigit():
+                    vals.add(int(str(y["v"]).split("_")[0]))
+        key = "%s/range/%s" % (v, ev)
+        if all(w in vals for w in want):
+            rep.ok(R, key, "the test reporting %s compares with the documented bounds (%s): constants {%s}" %
+                   (ev, text, ", ".join(sorted(set(names)))), facts.loc(v, x), sample={"error": ev, "constants": sorted(set(names))})
+        else:
+            rep.violation(R, key, "the test reporting %s compares with constants {%s} (values %s) instead of the documented "
+                          "bounds %s (%s): parameters outside the documented range are accepted or valid ones refused" %
+                          (ev, ", ".join(sorted(set(names))), sorted(vals), sorted(want), text), facts.loc(v, x))
     # (L3) enum coverage
     et = facts.types.get("encryption_parameters::ErrorType")
     if rep.anchor(R, "ErrorType", et is not None):
